@@ -187,6 +187,14 @@ impl Params {
         }
     }
 
+    pub(crate) fn has_deferred_error(&self) -> bool {
+        self.runtime
+            .state
+            .lock()
+            .map(|state| state.deferred_error.is_some())
+            .unwrap_or(false)
+    }
+
     pub(crate) fn take_deferred_error(&self) -> Option<Error> {
         self.runtime
             .state
